@@ -668,7 +668,7 @@ Proof.
       destruct (span (fun c => negb (name_end c)) r) as [n r3]. cbn [fst snd] in *.
       destruct (allowed_ok_b allow n) as [aa|] eqn:Ea; [|discriminate].
       apply allowed_ok_b_spec in Ea. destruct Ea as [Ea Hok].
-      destruct (attrs_chk (S (length r3)) aa r3) as [| |r4] eqn:Eat; try discriminate.
+      destruct (attrs_chk f aa r3) as [| |r4] eqn:Eat; try discriminate.
       destruct (attrs_chk_sound aa _ _ _ Eat) as [av [sc [E3 Hav]]].
       rewrite <- Hn, E3.
       apply (SD_start allow n aa av sc); auto. exact (IH _ _ H).
@@ -734,8 +734,8 @@ Proof.
     + pose proof (span_len (fun c => negb (name_end c)) r) as L1.
       destruct (span (fun c => negb (name_end c)) r) as [n r3]. cbn [fst snd] in *.
       destruct (allowed_ok_b allow n) as [aa|]; [|discriminate].
-      destruct (attrs_chk (S (length r3)) aa r3) as [| |r4] eqn:Eat.
-      * exfalso. apply (attrs_chk_fuel aa (S (length r3)) r3); [lia|exact Eat].
+      destruct (attrs_chk f aa r3) as [| |r4] eqn:Eat.
+      * exfalso. apply (attrs_chk_fuel aa f r3); [lia|exact Eat].
       * discriminate.
       * apply attrs_chk_len in Eat. apply IH. lia.
   - destruct (plain c); [apply IH; lia|].
@@ -749,6 +749,90 @@ Qed.
 
 Theorem safe_doc_b_fuel allow s : doc_chk (S (length s)) allow s <> POut.
 Proof. apply doc_chk_fuel. lia. Qed.
+
+(* ------------------------------------------------------------------ *)
+(* the accumulator version is the same function                         *)
+
+Lemma clean_acc_elem allow name attrs kids acc :
+  clean_acc allow (HElem name attrs kids) acc =
+  let body := fun tail => fold_right (fun k t => clean_acc allow k t) tail kids in
+  match find_tag allow name with
+  | Some aa =>
+    "<" :: name ++ allowed_attrs aa attrs
+        ++ (if void name then [" "; "/"] else []) ++ ">" ::
+        body ((if void name then [] else "<" :: "/" :: name ++ [">"]) ++ acc)
+  | None => body acc
+  end.
+Proof.
+  cbn [clean_acc].
+  assert (E : forall tail,
+    (fix go (l : list hnode) : bytes :=
+       match l with [] => tail | k :: r => clean_acc allow k (go r) end) kids =
+    fold_right (fun k t => clean_acc allow k t) tail kids).
+  { intros tail. induction kids as [|k r IH]; [reflexivity|]. cbn [fold_right]. rewrite <- IH. reflexivity. }
+  cbv zeta. rewrite !E. reflexivity.
+Qed.
+
+Lemma fold_clean_acc allow kids : Forall (fun k => forall acc, clean_acc allow k acc = clean allow k ++ acc) kids ->
+  forall tail, fold_right (fun k t => clean_acc allow k t) tail kids = flat_map (clean allow) kids ++ tail.
+Proof.
+  induction 1 as [|k r Hk _ IH]; intros tail; [reflexivity|].
+  cbn [fold_right flat_map]. rewrite Hk, IH, app_assoc. reflexivity.
+Qed.
+
+Lemma clean_acc_spec allow : forall n acc, clean_acc allow n acc = clean allow n ++ acc.
+Proof.
+  induction n as [name attrs kids IH|s|s|s|] using hnode_ind2; intros acc; try reflexivity.
+  rewrite clean_acc_elem, clean_elem. cbv zeta.
+  destruct (find_tag allow name) as [aa|].
+  - rewrite (fold_clean_acc allow kids IH).
+    cbn [app]. rewrite <- !app_assoc. cbn [app]. rewrite <- !app_assoc. reflexivity.
+  - apply fold_clean_acc; exact IH.
+Qed.
+
+Lemma strip_acc_spec allow forest : strip_acc allow forest = strip allow forest.
+Proof.
+  unfold strip. induction forest as [|n r IH]; [reflexivity|].
+  cbn [strip_acc flat_map]. rewrite clean_acc_spec, IH. reflexivity.
+Qed.
+
+Theorem striptags_fast_spec slices forest : striptags_fast slices forest = striptags slices forest.
+Proof. unfold striptags_fast, striptags. apply strip_acc_spec. Qed.
+
+(* ------------------------------------------------------------------ *)
+(* the flat encoding of a forest loses nothing                          *)
+
+Lemma flatten_elem name attrs kids :
+  flatten (HElem name attrs kids) = FOpen name attrs :: flat_map flatten kids ++ [FClose].
+Proof. reflexivity. Qed.
+
+Lemma build_go_flat_list kids :
+  Forall (fun n => forall rest stack cur,
+            build_go (flatten n ++ rest) stack cur = build_go rest stack (n :: cur)) kids ->
+  forall rest stack cur,
+    build_go (flat_map flatten kids ++ rest) stack cur = build_go rest stack (rev kids ++ cur).
+Proof.
+  induction 1 as [|k r Hk _ IH]; intros rest stack cur; [reflexivity|].
+  cbn [flat_map rev]. rewrite <- !app_assoc, Hk, IH. reflexivity.
+Qed.
+
+Lemma build_go_flatten : forall n rest stack cur,
+  build_go (flatten n ++ rest) stack cur = build_go rest stack (n :: cur).
+Proof.
+  induction n as [name attrs kids IH|s|s|s|] using hnode_ind2; intros rest stack cur; try reflexivity.
+  rewrite flatten_elem. cbn [app build_go]. rewrite <- app_assoc.
+  rewrite (build_go_flat_list kids IH). cbn [app build_go].
+  rewrite app_nil_r, rev_involutive. reflexivity.
+Qed.
+
+Theorem build_flatten forest : build_forest (flatten_forest forest) = forest.
+Proof.
+  unfold build_forest, flatten_forest.
+  rewrite <- (app_nil_r (flat_map flatten forest)).
+  rewrite (build_go_flat_list forest).
+  - cbn [build_go unwind]. rewrite app_nil_r. apply rev_involutive.
+  - apply Forall_forall. intros n _. apply build_go_flatten.
+Qed.
 
 (* ------------------------------------------------------------------ *)
 (* non-vacuity                                                          *)
@@ -795,6 +879,20 @@ Example nv_pruned :
 Proof. split; [intros H; vm_compute in H; discriminate H|vm_compute; reflexivity]. Qed.
 
 (* the checker rejects what the property forbids *)
+Example nv_fast : striptags_fast [[Some (B "P"); Some (B "a(HREF title)")]] nv_forest =
+                  striptags [[Some (B "P"); Some (B "a(HREF title)")]] nv_forest.
+Proof. vm_compute. reflexivity. Qed.
+
+Example nv_flat : build_forest (flatten_forest nv_forest) = nv_forest /\
+                  6 <= length (flatten_forest nv_forest).
+Proof. vm_compute. split; [reflexivity|lia]. Qed.
+
+(* tokens that are not the image of a forest are read leniently *)
+Example nv_build_lenient :
+  build_forest [FClose; FOpen (B "p") []; FLeaf (HText (B "t")); FOpen (B "b") []] =
+  [HElem (B "p") [] [HText (B "t"); HElem (B "b") [] []]].
+Proof. vm_compute. reflexivity. Qed.
+
 Example nv_reject_script : safe_doc_b nv_allow (B "<p><script>alert(1)</script></p>") = false.
 Proof. vm_compute. reflexivity. Qed.
 
